@@ -299,7 +299,9 @@ func judge(t *testing.T, c Case) (v harness.Verdict) {
 			}
 			if !c.NoCheck && s.rootSize > 0 && !s.rootOK {
 				forkSeen = true
-				if pr.ErrNil && !pr.Cancelled && s.sth > s.rootSize {
+				// Also when the destination is as large as, or larger than, the source's (non-empty) head: there is
+				// nothing to copy, but reporting success means accepting a tree the source contradicts / cannot vouch for.
+				if pr.ErrNil && !pr.Cancelled && s.sth > 0 {
 					v.Failf("fork-accepted", "pass %d returned nil although the destination root (size %d) is not a root of the source log (STH size %d) and the consistency check is enabled", p, s.rootSize, s.sth)
 				}
 			}
@@ -417,6 +419,16 @@ func judge(t *testing.T, c Case) (v harness.Verdict) {
 	return
 }
 
+func (o *outcome) dstConflicts() []int64 {
+	var out []int64
+	if o.dst != nil {
+		for _, c := range o.dst.Log.Conflicts {
+			out = append(out, c.Index)
+		}
+	}
+	return out
+}
+
 func passText(o *outcome, p int) string {
 	if p >= len(o.passes) {
 		return "(pass did not finish)"
@@ -454,6 +466,12 @@ func classify(c *Case, o *outcome, tr []truth, v *harness.Verdict) {
 	}
 	if c.LongQuota > 0 {
 		v.Class("dst:long-quota-outage")
+	}
+	if c.SQLStatuses {
+		v.Class("dst:sql-per-leaf-statuses")
+	}
+	if n := len(o.dstConflicts()); n > 0 {
+		v.Class("dst:leaf-resubmitted")
 	}
 	if c.DupMod > 0 && c.IDFunc == 1 {
 		v.Class("source:repeated-certs-under-cert-data")
